@@ -75,6 +75,14 @@ Theorem C09_rerun_completes : forall d, reachable d ->
   exists tr, run d = Some (tr, state_at (c_R cf), c_R cf).
 Proof. exact (rerun_completes step init save load tsv load_save cf HR). Qed.
 
+(* the final-evaluation files are written in place (open, two writes, close): in every reachable
+   directory -- in particular after a crash anywhere in the final evaluation -- <eval i>.tsv is absent,
+   torn, or complete with exactly the uninterrupted run's content; C09_resume_equals_uninterrupted
+   adds that the completing re-run leaves every one of them complete *)
+Theorem C09_tsv_absent_torn_or_correct : forall d, reachable d -> forall i c,
+  lookup str_eqb d (tsv_name i) = Some c -> c = Torn \/ c = Whole (tsv i (state_at (c_R cf)) (c_R cf)).
+Proof. exact (reachable_tsv_ok step init save load tsv load_save cf HR). Qed.
+
 (* every directory a history passes through is reachable (so the theorems above apply to it) *)
 Theorem C09_history_dirs_reachable : forall ks ds tr df s r,
   history [] ks = Some (ds, tr, df, s, r) -> Forall reachable ds /\ reachable df.
@@ -131,6 +139,7 @@ Print Assumptions C09_newest_wins.
 Print Assumptions C09_retention.
 Print Assumptions C09_resume_equals_uninterrupted.
 Print Assumptions C09_rerun_completes.
+Print Assumptions C09_tsv_absent_torn_or_correct.
 Print Assumptions C09_history_dirs_reachable.
 Print Assumptions C09_run_follows_rename_discipline.
 Print Assumptions C09_run_never_tears.
